@@ -57,6 +57,12 @@ def readDi (b : ByteStore) : List Nat :=
     | .ok l => l
     | .error _ => []
 
-def readItem (rc : ReqCodec) (b : ByteStore) (i : Nat) : Option Req := (b (itemKey i)).bind rc.dec
+/-- `Get <index>` + `Encoding.Unmarshal` -/
+def readItemWith (dec : Bytes → Option Req) (b : ByteStore) (i : Nat) : Option Req := (b (itemKey i)).bind dec
+
+def readItem (rc : ReqCodec) (b : ByteStore) (i : Nat) : Option Req := readItemWith rc.dec b i
+
+/-- a byte store given as a key/value list (how the driver receives the raw storage map of the implementation) -/
+def ByteStore.ofList (kvs : List (String × Bytes)) : ByteStore := fun key => kvs.lookup key
 
 end OtelVerif.C01
